@@ -98,7 +98,7 @@ BT_LOOPS = [(r"drop_glue::<\[std::backtrace::Backtrace(Symbol|Frame)\]>", 0, 1),
             (r"^std::ptr::drop_glue::<std::io::Error>$", None, 2),
             (r"^<core::io::error::repr::Repr as std::ops::Drop>::drop$", None, 2)]
 
-_c07_common = dict(timeout=900, mem_gb=8, unwindset=BT_LOOPS)
+_c07_common = dict(timeout=1500, mem_gb=14, unwindset=BT_LOOPS)
 PROPS["C07"] = dict(
     functions=[
         "FixedWindowRollerBuilder::build", "<FixedWindowRoller as Roll>::roll", "fixed_window::rotate",
@@ -845,10 +845,12 @@ _c19 = [("simple3", "/a/$ENV{A}/b, A set, value of 3 bytes", "quick"), ("empty",
         ("tricky_b_unset", "the same, B unset", "quick"), ("tricky_a_unset", "the same, A unset, B's value of 4 bytes", "quick"),
         ("dotted_name", "/$ENV{A.b_1}.log", "quick"), ("unicode_name", "/$ENV{e-acute}.log", "quick"), ("unterminated", "/a/$ENV{A (A set)", "quick"),
         ("empty_name", "$ENV{}$ENV{A}", "quick"), ("bad_first", "$ENV{-A}$ENV{.A}$ENV{A}", "quick"), ("bad_inner", "$ENV{A-}$ENV{A}", "quick"),
-        ("stray", "$${}}$ENV${A}$ENV{A}$", "quick"), ("nested", "$ENV{$ENV{A}}, A set", "quick"), ("nested_unset", "$ENV{$ENV{A}}, A unset", "quick")]
+        ("stray", "$${}}$ENV${A}$ENV{A}$", "quick"),
+        ("lead_empty", "$ENV{A}/b with A set to the empty string (a reference at the very start)", "quick"), ("lead3", "$ENV{A}/b, value of 3 bytes", "quick"),
+        ("lead_empty_twice_then_unset", "$ENV{A}$ENV{A}x/$ENV{B}, A empty, B unset", "quick"), ("only_empty", "$ENV{A} alone, A empty: the result is the empty string", "quick"), ("nested", "$ENV{$ENV{A}}, A set", "quick"), ("nested_unset", "$ENV{$ENV{A}}, A unset", "quick")]
 PROPS["C19"] = dict(
     functions=["append::env_util::expand_env_vars", "is_env_var_start", "is_env_var_part", "str::match_indices (two-way searcher), String::push_str (executed for real)"],
-    bounds="16 path texts (instances) with one or two references: plain, repeated, adjacent references behind a stray '$', dotted / non-ASCII names, "
+    bounds="20 path texts (instances) with one or two references: plain, repeated, adjacent references behind a stray '$', dotted / non-ASCII names, "
            "unterminated, empty name, illegal first / inner character, stray syntax characters, nested look-alike; which variables are set and the "
            "LENGTH of each value (0-6 bytes) are instance parameters; solver variables: every byte of every value over {$ E N V { } B z}",
     outside="free path text and free variable names (the searcher over symbolic text did not fit), values longer than 6 bytes or with other bytes, "
